@@ -557,6 +557,28 @@ def r14_6(ctx: Ctx):
             t = ctx.res.type_of(e, f)
             return t is not None and t[0] == "set"
 
+        def set_def_reaching(name: ast.Name, at_stmt):
+            """an assignment `name = <set expression>` with a path to the use on which `name` is not assigned again"""
+            sdefs = [y for y in body_walk(f.node) if isinstance(y, ast.Assign) and len(y.targets) == 1 and isinstance(y.targets[0], ast.Name) and y.targets[0].id == name.id and is_set(y.value)]
+            if not sdefs:
+                return None
+            cfg = ctx.cfg(f)
+            uses = [nd for nd in cfg.nodes if nd.stmt is at_stmt or nd.ast is at_stmt]
+            redefs = lambda nd: nd.kind == "stmt" and isinstance(nd.ast, (ast.Assign, ast.AnnAssign, ast.AugAssign)) and any(isinstance(t_, ast.Name) and t_.id == name.id for t_ in (nd.ast.targets if isinstance(nd.ast, ast.Assign) else [nd.ast.target]))
+            for y in sdefs:
+                src = [nd for nd in cfg.nodes if nd.ast is y]
+                for a_ in src:
+                    for u in uses:
+                        if any(cfg.can_reach(nx, u, avoid=lambda nd: redefs(nd) and nd is not u) or nx is u for nx, _ in a_.succ):
+                            return y
+            return None
+
+        stmt_of = {}
+        for st_ in body_walk(f.node):
+            if isinstance(st_, ast.stmt):
+                for sub in ast.walk(st_) if not isinstance(st_, (ast.For, ast.While, ast.If, ast.With, ast.Try, ast.FunctionDef)) else ([st_] + list(ast.walk(st_.iter)) if isinstance(st_, ast.For) else []):
+                    stmt_of.setdefault(id(sub), st_)
+
         for x in body_walk(f.node):
             it = None
             if isinstance(x, (ast.For, ast.comprehension)):
@@ -569,6 +591,13 @@ def r14_6(ctx: Ctx):
                 if is_set(x.func.value):
                     n += 1
                     obs.append(ctx.ob("R14.6", f, x, status=VIOLATION, detail=f"`{norm(x)[:60]}` pops an arbitrary element of a set (hash-order dependent)"))
+                continue
+            if it is not None and isinstance(it, ast.Name) and not is_set(it):
+                host = x if isinstance(x, ast.For) else stmt_of.get(id(it))
+                y = set_def_reaching(it, host) if host is not None else None
+                if y is not None:
+                    n += 1
+                    obs.append(ctx.ob("R14.6", f, x if not isinstance(x, ast.comprehension) else it, status=VIOLATION, detail=f"`{it.id}` may hold the set `{norm(y.value)[:60]}` (line {y.lineno}) when it is iterated: the order of a set of objects depends on their addresses / PYTHONHASHSEED, so the order of the steps - and of the random draws they make - is not reproducible from the seed"))
                 continue
             if it is not None and is_set(it):
                 n += 1
